@@ -783,8 +783,6 @@ impl<'input, T: Input> Scanner<'input, T> {
                 self.stale_simple_keys()?;
                 // If our next token to be emitted may be a key, fetch more context.
                 for sk in &self.simple_keys {
-                    #[cfg(saphyr_verif)]
-                    crate::verif_hooks::work_tick();
                     if sk.possible && sk.token_number == self.tokens_parsed {
                         need_more = true;
                         break;
@@ -811,8 +809,6 @@ impl<'input, T: Input> Scanner<'input, T> {
     /// This function returns an error if one of the key we would stale was required to be a key.
     fn stale_simple_keys(&mut self) -> ScanResult {
         for sk in &mut self.simple_keys {
-            #[cfg(saphyr_verif)]
-            crate::verif_hooks::work_tick();
             if sk.possible
                 // If not in a flow construct, simple keys cannot span multiple lines.
                 && self.flow_level == 0
@@ -944,8 +940,6 @@ impl<'input, T: Input> Scanner<'input, T> {
         // If the stream ended, we won't have more context. We can stall all the simple keys we
         // had. If one was required, however, that was an error and we must propagate it.
         for sk in &mut self.simple_keys {
-            #[cfg(saphyr_verif)]
-            crate::verif_hooks::work_tick();
             if sk.required && sk.possible {
                 return Err(ScanError::new_str(self.mark, "simple key expected"));
             }
